@@ -68,8 +68,15 @@ enum Obj3 {
 }
 
 fn raw_id(info: &libc::siginfo_t) -> i64 {
-    // the simulated deliveries carry their id in si_uid (offset 20)
-    unsafe { *(info as *const libc::siginfo_t as *const i32).add(5) as i64 }
+    // the simulated deliveries carry their id in si_uid (offset 20) and 1_000_000 + id in si_pid
+    // (offset 16); anything else means the record is not a copy of one delivery's info
+    let p = info as *const libc::siginfo_t as *const i32;
+    let (pid, uid) = unsafe { (*p.add(4) as i64, *p.add(5) as i64) };
+    if pid == 1_000_000 + uid && info.si_code == 0 {
+        uid
+    } else {
+        -1
+    }
 }
 
 fn blocking_cb(read: &mut UnixStream) -> Result<bool, std::io::Error> {
@@ -405,7 +412,13 @@ fn normalise(b: &Built, res: &RunResult, raw: bool, hot: &HashSet<i64>) -> (Vec<
                 }
                 match ev.kind {
                     Kind::Store if !raw => Some(base("flag_set").int("sig", sig).done()),
-                    Kind::Cas if !raw => Some(base("flag_take").int("sig", sig).boolean("ok", ev.ok).done()),
+                    Kind::Cas | Kind::Swap if !raw => Some(
+                        base("flag_take")
+                            .int("sig", sig)
+                            .boolean("ok", ev.ok)
+                            .int("val", ev.new as i64)
+                            .done(),
+                    ),
                     Kind::Load if !raw => Some(base("flag_peek").int("sig", sig).int("v", ev.old as i64).done()),
                     _ => None,
                 }
@@ -439,8 +452,8 @@ fn normalise(b: &Built, res: &RunResult, raw: bool, hot: &HashSet<i64>) -> (Vec<
     match &res.outcome {
         Outcome::Done => {}
         Outcome::Unstuck(who) => tail.push(Obj::new("was_stuck").int("t", 0).int("d", 0).str("who", who).done()),
-        Outcome::Deadlock => tail.push(Obj::new("deadlock").int("t", 0).int("d", 0).done()),
-        Outcome::Livelock | Outcome::StepLimit => tail.push(Obj::new("livelock").int("t", 0).int("d", 0).done()),
+        Outcome::Deadlock => tail.push(Obj::new("deadlock").int("t", 0).int("d", 0).int("hdepth", res.stuck.iter().map(|s| s.1 as i64).max().unwrap_or(0)).done()),
+        Outcome::Livelock | Outcome::StepLimit => tail.push(Obj::new("livelock").int("t", 0).int("d", 0).int("hdepth", res.stuck.iter().map(|s| s.1 as i64).max().unwrap_or(0)).done()),
         Outcome::Aborted(r) => tail.push(Obj::new("aborted").int("t", 0).int("d", 0).str("why", r).done()),
     }
     for (i, m) in &res.panics {
